@@ -8,7 +8,25 @@ GoStage2 — the stage-2 ACTIONS of the hand model (`Model/Stage2.lean`: `M.loc`
 `M.parseString`, the number case of `M.value`) are the meaning of the regenerated syntax trees of
 `ParsedJson.get_current_loc`, `write_tape`, `writeTapeTagVal`, `writeTapeTagValFlags`, `write_tape_s64`,
 `write_tape_double`, `annotate_previousloc` (parsed_json.go), `parseString` and `addNumber`
-(stage2_build_tape_amd64.go).
+(stage2_build_tape_amd64.go).  Bundle: `go_stage2_actions_source_tie`.
+
+The machine state `m : M` parsing the message `buf` is the store `stEnv m buf` (`pj.lim = len(pj.Tape)`, `Strings.B`,
+`Message`) followed by the parameters, with the interpreter tape `m.tape`.
+
+What was found:
+* `mkWord c val = val | uint64(c)<<56` for EVERY `val` (`or_shl_eq_mkWord`; no `val < 2^56` needed).
+* `get_current_loc` needs no bound on the tape length (`uint64(len)` and `UInt64.ofNat` wrap alike).
+* `parseString`: the only hypotheses are `idx ≤ len(pj.Message)` and `idx < 2^63` (otherwise `pj.Message[idx:]` panics
+  where the model says "rejected": the two `example`s after `parseString_sim_nat`).  Nothing about `maxStringSize`,
+  `len(pj.Strings.B)` or `cap(strs)`: the padding branches only append zero bytes, which never changes the decoder's
+  answer (`decodeString_pad`, for all inputs: the scalar model's "ran off the end" rule and a run through appended zeros
+  both end in `none`); decoding in the suffix is decoding in the message shifted by `idx` (`decodeString_suffix`);
+  `parseStringSimd`'s limit `len(buf)` gives the same bytes as the validated limit (`decodeString_lim_size`); the
+  reallocation is content-neutral (`realloc_exec`, every `cap`); `uint64(STRINGBUFBIT+start)` and
+  `wSTRINGBUFBIT + UInt64.ofNat start` wrap alike.
+* `addNumber`: no hypothesis.  `GoNumber.parseNumber_run` gives the returned words and the tape; that the callee also
+  leaves the shared buffers alone (they are copied back by `callFun`) is `keeps_parseNumber_*`.
+* No difference between the model and the Go code for these nine functions.
 -/
 namespace SJ.GoStage2
 open SJ SJ.GoSem SJ.Generated SJ.GoRebuild
@@ -522,5 +540,491 @@ theorem parseString_sim (m : M) (cfg : Cfg) (buf : Bytes) (idx max : UInt64) (ca
       simp only [Bool.not_true, Bool.false_eq_true, if_false, M.writeTape, tagString]
       refine ⟨e', hrun, ?_, p2, p3⟩
       simp [p1]
+
+/-! ## `addNumber` -/
+
+/-- the two words `parseNumber` returns (`0, 0` for a rejected number) -/
+def encNum : Option (UInt64 × UInt64) → List Val
+  | none => [.u64 0, .u64 0]
+  | some (id, val) => [.u64 id, .u64 val]
+
+/-- the frame `callFun` builds for `parseNumber(buf)` from a caller holding the two shared buffers -/
+def pnEnv (strs msg b : Bytes) : Env := [("Strings.B", .bytes strs), ("Message", .bytes msg), ("buf", .bytes b)]
+
+/-- What `addNumber` needs of `parseNumber(msg[idx:])`, run on the frame `callFun` builds: it returns the model's two
+    words, leaves tape and shared buffers alone, and the tag word of an accepted number is not zero.
+    (`parseNumber_call` below proves it from `GoNumber`.) -/
+def PNCall (msg : Bytes) (idx : Nat) : Prop :=
+  (∀ id v, parseNumber msg idx = some (id, v) → id ≠ 0) ∧
+  ∀ (strs : Bytes) (tape : Array UInt64) (fuel : Nat),
+    ∃ s, exec goFuns fuel goparseNumber.body ⟨pnEnv strs msg (msg.extract idx msg.size), tape⟩ =
+        .ret s (encNum (parseNumber msg idx)) ∧ s.tape = tape ∧
+      s.env.get "Strings.B" = some (.bytes strs) ∧ s.env.get "Message" = some (.bytes msg)
+
+/-- `parseNumber(a)` through `callFun`, from any caller holding the buffers -/
+theorem callFun_parseNumber (s : GoSem.St) (strs msg : Bytes) (idx : Nat) (a : Expr) (f : Nat) (hpn : PNCall msg idx)
+    (hS : s.env.get "Strings.B" = some (.bytes strs)) (hM : s.env.get "Message" = some (.bytes msg))
+    (ha : evalE s a = .val (.bytes (msg.extract idx msg.size))) :
+    callFun goFuns f "" "parseNumber" [] [a] s =
+      .ret ⟨(s.env.set "Strings.B" (.bytes strs)).set "Message" (.bytes msg), s.tape⟩ (encNum (parseNumber msg idx)) := by
+  obtain ⟨s', he, ht, h1, h2⟩ := hpn.2 strs s.tape f
+  simp only [pnEnv] at he
+  rw [callFun]
+  simp [goFuns, goparseNumber, ha, hS, hM, copyPtrs, copyGlobals, globalVars, copyPtrsBack, -exec, -exec1]
+  simp only [goparseNumber] at he
+  rw [he]
+  simp [copyPtrsBack, copyGlobals, h1, h2, ht]
+
+theorem addNumber_sim_of (m : M) (msg : Bytes) (idx : Nat) (fuel : Nat) (hpn : PNCall msg idx) :
+    match parseNumber msg idx with
+    | some (tg, v) => ∃ e', runFun goFuns goaddNumber (fuel + 1)
+        ⟨stEnv m msg ++ [("buf", .bytes (msg.extract idx msg.size))], m.tape⟩ =
+          .ret ⟨e', (m.tape.push tg).push v⟩ [.bool true] ∧ PSPost e' { m with tape := (m.tape.push tg).push v } msg
+    | none => ∃ e', runFun goFuns goaddNumber (fuel + 1)
+        ⟨stEnv m msg ++ [("buf", .bytes (msg.extract idx msg.size))], m.tape⟩ = .ret ⟨e', m.tape⟩ [.bool false] ∧
+          PSPost e' m msg := by
+  have hc := callFun_parseNumber ⟨stEnv m msg ++ [("buf", .bytes (msg.extract idx msg.size))], m.tape⟩ m.strings msg idx
+    (.v "buf") fuel hpn (by simp [stEnv]) (by simp [stEnv]) (by simp [stEnv])
+  cases hp : parseNumber msg idx with
+  | none =>
+    rw [hp] at hc
+    simp only [runFun, goaddNumber, exec, exec1, hc, encNum, assignTargets]
+    simp [stEnv, PSPost]
+  | some r =>
+    obtain ⟨tg, v⟩ := r
+    rw [hp] at hc
+    have hne : tg ≠ 0 := hpn.1 tg v hp
+    simp only [runFun, goaddNumber, exec, exec1, hc, encNum, assignTargets]
+    have hbeq : (tg == 0) = false := by simpa using hne
+    have hc2 := callFun_writeTapeTagValFlags
+      ⟨[("pj.lim", .int m.tape.size), ("Strings.B", .bytes m.strings), ("Message", .bytes msg),
+        ("buf", .bytes (msg.extract idx msg.size)), ("tag", .u64 tg), ("val", .u64 v)], m.tape⟩ m.strings msg
+      (.v "tag") (.v "val") tg v fuel (by constructor <;> simp) (by simp) (by simp)
+    simp [stEnv, PSPost, hbeq, hc2, assignTargets, backEnv]
+
+/-! ### `parseNumber` leaves the shared buffers alone
+
+`GoNumber.parseNumber_run` gives the returned words and the tape; `callFun` also copies the shared buffers back from the
+callee's final store, so that they are still there, unchanged, has to be shown too: no statement of `parseNumber`
+assigns them (a syntactic walk over the regenerated tree, `keeps_parseNumber`). -/
+
+/-- the outcome `o` of a run started in `s` has the variable `k` as it was -/
+def Keeps (k : String) (s : GoSem.St) : Out → Prop
+  | .normal s' | .brk s' | .cont s' | .ret s' _ => s'.env.get k = s.env.get k
+  | _ => True
+
+section Keeps
+attribute [-simp] exec exec1 evalE evalEs Env.get Env.set
+
+variable (funs : String → Option FunDef) (fuel : Nat) (k : String)
+
+theorem Keeps.trans {k : String} {s s' : GoSem.St} {o : Out} (h : s'.env.get k = s.env.get k) (ho : Keeps k s' o) :
+    Keeps k s o := by
+  cases o <;> simp only [Keeps] at ho ⊢ <;> first | exact ho.trans h | trivial
+
+theorem keeps_ofE (s : GoSem.St) (o : EOut) (h : ∀ v, o ≠ .val v) : Keeps k s (ofE o) := by
+  cases o with
+  | val v => exact absurd rfl (h v)
+  | panic => trivial
+  | stuck w => trivial
+
+theorem keeps_nil : ∀ s, Keeps k s (exec funs fuel [] s) := by
+  intro s; rw [exec]; rfl
+
+theorem keeps_cons (st : Stmt) (rest : List Stmt) (H1 : ∀ s, Keeps k s (exec1 funs fuel st s))
+    (H2 : ∀ s, Keeps k s (exec funs fuel rest s)) : ∀ s, Keeps k s (exec funs fuel (st :: rest) s) := by
+  intro s
+  rw [exec]
+  have h1 := H1 s
+  cases h : exec1 funs fuel st s with
+  | normal s' =>
+    rw [h] at h1
+    exact Keeps.trans h1 (H2 s')
+  | _ => rw [h] at h1; exact h1
+
+theorem keeps_assign (n : String) (e : Expr) (hn : n ≠ k) : ∀ s, Keeps k s (exec1 funs fuel (.assign n e) s) := by
+  intro s
+  rw [exec1]
+  cases h : evalE s e with
+  | val v => simp [Keeps, Env.get_set, hn]
+  | panic => trivial
+  | stuck w => trivial
+
+theorem keeps_ite (c : Expr) (t e : List Stmt) (Ht : ∀ s, Keeps k s (exec funs fuel t s))
+    (He : ∀ s, Keeps k s (exec funs fuel e s)) : ∀ s, Keeps k s (exec1 funs fuel (.ite c t e) s) := by
+  intro s
+  rw [exec1]
+  cases h : evalE s c with
+  | val v =>
+    cases v with
+    | bool b => cases b <;> first | exact He s | exact Ht s
+    | _ => trivial
+  | panic => trivial
+  | stuck w => trivial
+
+theorem keeps_ret (es : List Expr) : ∀ s, Keeps k s (exec1 funs fuel (.ret es) s) := by
+  intro s
+  rw [exec1]
+  cases h : evalEs s es with
+  | ok vs => rfl
+  | error o => cases o <;> trivial
+
+theorem keeps_brk : ∀ s, Keeps k s (exec1 funs fuel .brk s) := by
+  intro s; rw [exec1]; rfl
+
+theorem assignTargets_get : ∀ (ts : List String) (vs : List Val) (e e' : Env), assignTargets ts vs e = some e' →
+    (∀ t ∈ ts, t ≠ k) → e'.get k = e.get k := by
+  intro ts
+  induction ts with
+  | nil =>
+    intro vs e e' h _
+    cases vs with
+    | nil => simp [assignTargets] at h; rw [h]
+    | cons v vs => simp [assignTargets] at h
+  | cons t ts ih =>
+    intro vs e e' h hk
+    cases vs with
+    | nil => simp [assignTargets] at h
+    | cons v vs =>
+      rw [assignTargets] at h
+      have := ih vs _ e' h (fun t' ht' => hk t' (List.mem_cons_of_mem _ ht'))
+      rw [this]
+      split
+      · rfl
+      · rw [Env.get_set, if_neg (hk t (List.mem_cons_self ..))]
+
+theorem keeps_ext (targets : List String) (name : String) (args : List Expr) (hk : ∀ t ∈ targets, t ≠ k) :
+    ∀ s, Keeps k s (exec1 funs fuel (.extAssign targets name args) s) := by
+  intro s
+  rw [exec1]
+  cases evalEs s args with
+  | error o => cases o <;> trivial
+  | ok vs =>
+    simp only []
+    cases extCall name vs with
+    | none => trivial
+    | some rs =>
+      simp only []
+      cases h : assignTargets targets rs s.env with
+      | none => trivial
+      | some e => exact assignTargets_get k targets rs s.env e h hk
+
+theorem keeps_rangeI (iv v : String) (body : List Stmt) (h1 : iv ≠ k) (h2 : v ≠ k)
+    (Hb : ∀ s, Keeps k s (exec funs fuel body s)) :
+    ∀ (xs : List UInt8) (n : Nat) (s : GoSem.St), Keeps k s (execRangeI funs fuel iv v n xs body s) := by
+  intro xs
+  induction xs with
+  | nil => intro n s; rw [GoNumber.execRangeI_nil]; rfl
+  | cons x xs ih =>
+    intro n s
+    rw [GoNumber.execRangeI_cons]
+    have hs : ({ s with env := (s.env.set iv (.int n)).set v (.u8 x) } : GoSem.St).env.get k = s.env.get k := by
+      simp [Env.get_set, h1, h2]
+    have hb := Hb { s with env := (s.env.set iv (.int n)).set v (.u8 x) }
+    cases h : exec funs fuel body { s with env := (s.env.set iv (.int n)).set v (.u8 x) } with
+    | normal s' => rw [h] at hb; exact Keeps.trans (hb.trans hs) (ih (n + 1) s')
+    | cont s' => rw [h] at hb; exact Keeps.trans (hb.trans hs) (ih (n + 1) s')
+    | brk s' => rw [h] at hb; exact hb.trans hs
+    | ret s' vs => rw [h] at hb; exact hb.trans hs
+    | panic => trivial
+    | diverge => trivial
+    | stuck w => trivial
+
+end Keeps
+
+theorem keeps_rangeIB (funs : String → Option FunDef) (fuel : Nat) (k : String) (iv v : String) (e : Expr)
+    (body : List Stmt) (h1 : iv ≠ k) (h2 : v ≠ k) (Hb : ∀ s, Keeps k s (exec funs fuel body s)) :
+    ∀ s, Keeps k s (exec1 funs fuel (.rangeIB iv v e body) s) := by
+  intro s
+  rw [exec1]
+  cases h : evalE s e with
+  | val x =>
+    cases x with
+    | bytes b => exact keeps_rangeI funs fuel k iv v body h1 h2 Hb b.toList 0 s
+    | _ => trivial
+  | panic => trivial
+  | stuck w => trivial
+
+/-- walk a syntax tree made of assignments, `if`, `return`, `break`, library calls and `range` loops -/
+macro "keeps_walk" : tactic => `(tactic| repeat (first
+  | exact keeps_nil _ _ _
+  | apply keeps_cons
+  | (apply keeps_assign; decide)
+  | apply keeps_ite
+  | exact keeps_ret _ _ _ _
+  | exact keeps_brk _ _ _
+  | (apply keeps_ext; decide)
+  | (apply keeps_rangeIB _ _ _ _ _ _ _ (by decide) (by decide))))
+
+theorem keeps_parseNumber_strs (fuel : Nat) : ∀ s, Keeps "Strings.B" s (exec goFuns fuel goparseNumber.body s) := by
+  unfold goparseNumber
+  keeps_walk
+
+theorem keeps_parseNumber_msg (fuel : Nat) : ∀ s, Keeps "Message" s (exec goFuns fuel goparseNumber.body s) := by
+  unfold goparseNumber
+  keeps_walk
+
+/-- `GoNumber.parseNumber_run` on any store holding `buf` (same proof: `GoNumber.scan_loop` and `GoNumber.tail_sim`
+    are stated for abstract stores) -/
+theorem parseNumber_exec_env (e0 : Env) (b : Bytes) (hb : e0.get "buf" = some (.bytes b)) (fuel : Nat) (tape : Array UInt64) :
+    ∃ s, exec goFuns fuel goparseNumber.body ⟨e0, tape⟩ = .ret s (GoNumber.enc (NumberProofs.parseNumberL b.toList)) ∧
+      s.tape = tape := by
+  have hpre : exec goFuns fuel [.assign "id" (.u64 0), .assign "val" (.u64 0), .assign "pos" (.int 0),
+      .assign "found" (.conv .u8 (.u8 0))] ⟨e0, tape⟩ =
+      .normal ⟨(((e0.set "id" (.u64 0)).set "val" (.u64 0)).set "pos" (.int 0)).set "found" (.u8 0), tape⟩ := by
+    simp [-Env.set]
+  have hloop := GoNumber.scan_loop b tape fuel b.toList 0
+    ⟨(((e0.set "id" (.u64 0)).set "val" (.u64 0)).set "pos" (.int 0)).set "found" (.u8 0), tape⟩ 0 rfl (Nat.zero_le _) rfl
+    (by simp [Env.get_set, hb]) (by simp [Env.get_set]) (by simp [Env.get_set])
+  have hbody : goparseNumber.body = [.assign "id" (.u64 0), .assign "val" (.u64 0), .assign "pos" (.int 0),
+      .assign "found" (.conv .u8 (.u8 0))] ++ ([.rangeIB "i" "v" (.v "buf") GoNumber.loopBody] ++ GoNumber.tailStmts) := rfl
+  unfold NumberProofs.parseNumberL
+  rw [hbody, exec_append, hpre]
+  simp only []
+  rw [exec_append]
+  have hr : exec goFuns fuel [.rangeIB "i" "v" (.v "buf") GoNumber.loopBody]
+      ⟨(((e0.set "id" (.u64 0)).set "val" (.u64 0)).set "pos" (.int 0)).set "found" (.u8 0), tape⟩ =
+      match execRangeI goFuns fuel "i" "v" 0 b.toList GoNumber.loopBody
+        ⟨(((e0.set "id" (.u64 0)).set "val" (.u64 0)).set "pos" (.int 0)).set "found" (.u8 0), tape⟩ with
+      | .normal s' => .normal s'
+      | o => o := by
+    simp [Env.get_set, hb, -Env.set]
+    generalize execRangeI goFuns fuel "i" "v" 0 b.toList GoNumber.loopBody _ = out
+    cases out <;> rfl
+  rw [hr]
+  revert hloop
+  simp only [UInt8.toNat_zero]
+  cases NumberProofs.scan b.toList 0 0 with
+  | none =>
+    rintro ⟨s', hex, ht⟩
+    rw [hex]
+    exact ⟨s', rfl, ht⟩
+  | some pf =>
+    obtain ⟨p, f⟩ := pf
+    rintro ⟨s', fu', hex, ht, hb', hf', hfu, hp', hle⟩
+    rw [hex]
+    simp only []
+    subst hfu
+    obtain ⟨s'', h1, h2⟩ := GoNumber.tail_sim b tape fuel s'.env p fu' hb' hp' hf' hle
+    have : s' = ⟨s'.env, tape⟩ := by rw [← ht]
+    rw [this, h1]
+    exact ⟨s'', rfl, h2⟩
+
+theorem encNum_eq (r : Option (UInt64 × UInt64)) : GoNumber.enc r = encNum r := by
+  cases r with
+  | none => rfl
+  | some p => rfl
+
+/-- the premise of `addNumber_sim_of` holds, for every message and every index -/
+theorem parseNumber_call (msg : Bytes) (idx : Nat) : PNCall msg idx := by
+  refine ⟨fun id v h => GoNumber.parseNumber_id_ne h, ?_⟩
+  intro strs tape fuel
+  obtain ⟨s, hs, ht⟩ := parseNumber_exec_env (pnEnv strs msg (msg.extract idx msg.size)) (msg.extract idx msg.size)
+    (by simp [pnEnv]) fuel tape
+  rw [GoNumber.suffix_toList, ← NumberProofs.parseNumber_eq, encNum_eq] at hs
+  have k1 := keeps_parseNumber_strs fuel ⟨pnEnv strs msg (msg.extract idx msg.size), tape⟩
+  have k2 := keeps_parseNumber_msg fuel ⟨pnEnv strs msg (msg.extract idx msg.size), tape⟩
+  rw [hs] at k1 k2
+  refine ⟨s, hs, ht, ?_, ?_⟩
+  · rw [show s.env.get "Strings.B" = _ from k1]; simp [pnEnv]
+  · rw [show s.env.get "Message" = _ from k2]; simp [pnEnv]
+
+/-- `addNumber(msg[idx:], pj)` is the number case of `M.value`: `parseNumber msg idx = some (tag, val)` ⇔ Go returns
+    `true` after appending the two words; `none` ⇔ Go returns `false` and has changed nothing.  No hypothesis. -/
+theorem addNumber_sim (m : M) (msg : Bytes) (idx : Nat) (fuel : Nat) :
+    match parseNumber msg idx with
+    | some (tg, v) => ∃ e', runFun goFuns goaddNumber (fuel + 1)
+        ⟨stEnv m msg ++ [("buf", .bytes (msg.extract idx msg.size))], m.tape⟩ =
+          .ret ⟨e', (m.tape.push tg).push v⟩ [.bool true] ∧ PSPost e' { m with tape := (m.tape.push tg).push v } msg
+    | none => ∃ e', runFun goFuns goaddNumber (fuel + 1)
+        ⟨stEnv m msg ++ [("buf", .bytes (msg.extract idx msg.size))], m.tape⟩ = .ret ⟨e', m.tape⟩ [.bool false] ∧
+          PSPost e' m msg :=
+  addNumber_sim_of m msg idx fuel (parseNumber_call msg idx)
+
+/-! ## the `⇔` forms -/
+
+theorem annotate_none_iff (m : M) (buf : Bytes) (at_ val : UInt64) (fuel : Nat) :
+    m.annotate at_ val = none ↔ runFun goFuns goParsedJson_annotate_previousloc fuel
+      ⟨stEnv m buf ++ [("saved_loc", .u64 at_), ("val", .u64 val)], m.tape⟩ = .panic := by
+  have h := annotate_previousloc_sim m buf at_ val fuel
+  cases hm : m.annotate at_ val with
+  | none => rw [hm] at h; exact ⟨fun _ => h, fun _ => rfl⟩
+  | some m' =>
+    rw [hm] at h
+    simp only [] at h
+    rw [h]
+    exact ⟨fun hh => (by cases hh), fun hh => (by cases hh)⟩
+
+theorem annotate_some_iff (m : M) (buf : Bytes) (at_ val : UInt64) (fuel : Nat) :
+    (m.annotate at_ val).isSome ↔ ∃ s, runFun goFuns goParsedJson_annotate_previousloc fuel
+      ⟨stEnv m buf ++ [("saved_loc", .u64 at_), ("val", .u64 val)], m.tape⟩ = .ret s [] := by
+  have h := annotate_previousloc_sim m buf at_ val fuel
+  cases hm : m.annotate at_ val with
+  | none =>
+    rw [hm] at h
+    simp only [] at h
+    rw [h]
+    exact ⟨fun hh => (by cases hh), fun ⟨_, hh⟩ => (by cases hh)⟩
+  | some m' => rw [hm] at h; exact ⟨fun _ => ⟨_, h⟩, fun _ => rfl⟩
+
+/-- the model accepts the string ⇔ Go returns `true` -/
+theorem parseString_true_iff (m : M) (cfg : Cfg) (buf : Bytes) (idx max : UInt64) (cap : Int) (fuel : Nat)
+    (hidx : idx.toNat ≤ buf.size) (h63 : idx.toNat < 2^63) :
+    (m.parseString cfg buf idx.toNat max.toNat).isSome ↔
+      ∃ s, runFun goFuns goparseString (fuel + 1) ⟨psEnv m buf idx max cfg.copyStrings cap, m.tape⟩ = .ret s [.bool true] := by
+  have h := parseString_sim m cfg buf idx max cap fuel hidx h63
+  cases hm : m.parseString cfg buf idx.toNat max.toNat with
+  | none =>
+    rw [hm] at h
+    obtain ⟨e', he, _⟩ := h
+    rw [he]
+    exact ⟨fun hh => (by cases hh), fun ⟨_, hh⟩ => (by simp at hh)⟩
+  | some m' =>
+    rw [hm] at h
+    obtain ⟨e', he, _⟩ := h
+    exact ⟨fun _ => ⟨_, he⟩, fun _ => rfl⟩
+
+/-- the model rejects the string ⇔ Go returns `false` -/
+theorem parseString_false_iff (m : M) (cfg : Cfg) (buf : Bytes) (idx max : UInt64) (cap : Int) (fuel : Nat)
+    (hidx : idx.toNat ≤ buf.size) (h63 : idx.toNat < 2^63) :
+    m.parseString cfg buf idx.toNat max.toNat = none ↔
+      ∃ s, runFun goFuns goparseString (fuel + 1) ⟨psEnv m buf idx max cfg.copyStrings cap, m.tape⟩ = .ret s [.bool false] := by
+  have h := parseString_sim m cfg buf idx max cap fuel hidx h63
+  cases hm : m.parseString cfg buf idx.toNat max.toNat with
+  | none =>
+    rw [hm] at h
+    obtain ⟨e', he, _⟩ := h
+    exact ⟨fun _ => ⟨_, he⟩, fun _ => rfl⟩
+  | some m' =>
+    rw [hm] at h
+    obtain ⟨e', he, _⟩ := h
+    rw [he]
+    exact ⟨fun hh => (by cases hh), fun ⟨_, hh⟩ => (by simp at hh)⟩
+
+/-- the model accepts the number ⇔ Go returns `true` -/
+theorem addNumber_true_iff (m : M) (msg : Bytes) (idx : Nat) (fuel : Nat) :
+    (parseNumber msg idx).isSome ↔ ∃ s, runFun goFuns goaddNumber (fuel + 1)
+      ⟨stEnv m msg ++ [("buf", .bytes (msg.extract idx msg.size))], m.tape⟩ = .ret s [.bool true] := by
+  have h := addNumber_sim m msg idx fuel
+  cases hm : parseNumber msg idx with
+  | none =>
+    rw [hm] at h
+    obtain ⟨e', he, _⟩ := h
+    rw [he]
+    exact ⟨fun hh => (by cases hh), fun ⟨_, hh⟩ => (by simp at hh)⟩
+  | some r =>
+    obtain ⟨tg, v⟩ := r
+    rw [hm] at h
+    obtain ⟨e', he, _⟩ := h
+    exact ⟨fun _ => ⟨_, he⟩, fun _ => rfl⟩
+
+/-- the model rejects the number ⇔ Go returns `false` -/
+theorem addNumber_false_iff (m : M) (msg : Bytes) (idx : Nat) (fuel : Nat) :
+    parseNumber msg idx = none ↔ ∃ s, runFun goFuns goaddNumber (fuel + 1)
+      ⟨stEnv m msg ++ [("buf", .bytes (msg.extract idx msg.size))], m.tape⟩ = .ret s [.bool false] := by
+  have h := addNumber_sim m msg idx fuel
+  cases hm : parseNumber msg idx with
+  | none =>
+    rw [hm] at h
+    obtain ⟨e', he, _⟩ := h
+    exact ⟨fun _ => ⟨_, he⟩, fun _ => rfl⟩
+  | some r =>
+    obtain ⟨tg, v⟩ := r
+    rw [hm] at h
+    obtain ⟨e', he, _⟩ := h
+    rw [he]
+    exact ⟨fun hh => (by cases hh), fun ⟨_, hh⟩ => (by simp at hh)⟩
+
+/-- `parseString_sim` with the natural-number arguments of `M.step`: an index inside the message (a Go `int`) and a
+    `peekSize` that fits a `uint64` -/
+theorem parseString_sim_nat (m : M) (cfg : Cfg) (buf : Bytes) (idx peek : Nat) (cap : Int) (fuel : Nat)
+    (hidx : idx ≤ buf.size) (hbuf : buf.size < 2^63) (hpeek : peek < 2^64) :
+    match m.parseString cfg buf idx peek with
+    | some m' => ∃ e', runFun goFuns goparseString (fuel + 1)
+        ⟨psEnv m buf (UInt64.ofNat idx) (UInt64.ofNat peek) cfg.copyStrings cap, m.tape⟩ =
+          .ret ⟨e', m'.tape⟩ [.bool true] ∧ PSPost e' m' buf
+    | none => ∃ e', runFun goFuns goparseString (fuel + 1)
+        ⟨psEnv m buf (UInt64.ofNat idx) (UInt64.ofNat peek) cfg.copyStrings cap, m.tape⟩ =
+          .ret ⟨e', m.tape⟩ [.bool false] ∧ PSPost e' m buf := by
+  have h1 : (UInt64.ofNat idx).toNat = idx := by simp; omega
+  have h2 : (UInt64.ofNat peek).toNat = peek := by simp; omega
+  have := parseString_sim m cfg buf (UInt64.ofNat idx) (UInt64.ofNat peek) cap fuel (by omega) (by omega)
+  rw [h1, h2] at this
+  exact this
+
+/-! ## the hypotheses of `parseString_sim` are needed
+
+`idx ≤ len(pj.Message)` (and `idx < 2^63`, a Go `int`): otherwise `pj.Message[idx:]` panics, where the model says
+"rejected".  `unifiedMachine` only passes indexes of stage 1, which are inside the message. -/
+example : runFun goFuns goparseString 1 ⟨psEnv {} #[] 1 0 false 0, #[]⟩ = .panic := by
+  simp [goparseString, psEnv, stEnv, toInt64]
+example : ({} : M).parseString {} #[] 1 0 = none := by
+  simp [M.parseString, SJ.TokenSim.decodeString_lim0]
+
+/-! ## the bundle -/
+
+/-- The stage-2 ACTIONS of the hand model (`Model/Stage2.lean`) are the meaning of the regenerated syntax trees of
+    `get_current_loc`, `write_tape`, `writeTapeTagVal`, `writeTapeTagValFlags`, `write_tape_s64`, `write_tape_double`,
+    `annotate_previousloc`, `parseString` and `addNumber`: for every machine state `m`, every message `buf`, every
+    argument and every fuel (one unit where the function calls another one).  The only hypotheses are those of
+    `parseString`: the index lies in the message and is a Go `int`. -/
+theorem go_stage2_actions_source_tie (m : M) (cfg : Cfg) (buf : Bytes) (fuel : Nat) :
+    -- get_current_loc
+    (runFun goFuns goParsedJson_get_current_loc fuel ⟨stEnv m buf, m.tape⟩ = .ret ⟨stEnv m buf, m.tape⟩ [.u64 m.loc]) ∧
+    -- write_tape; `val | uint64(c)<<56` is `mkWord c val` for every `val`
+    (∀ (val : UInt64) (c : UInt8), val ||| (c.toUInt64 <<< 56) = mkWord c val) ∧
+    (∀ (val : UInt64) (c : UInt8),
+      runFun goFuns goParsedJson_write_tape fuel ⟨stEnv m buf ++ [("val", .u64 val), ("c", .u8 c)], m.tape⟩ =
+        .ret ⟨stEnv (m.writeTape val c) buf ++ [("val", .u64 val), ("c", .u8 c)], (m.writeTape val c).tape⟩ []) ∧
+    -- writeTapeTagVal
+    (∀ (tag : UInt8) (val : UInt64),
+      runFun goFuns goParsedJson_writeTapeTagVal fuel ⟨stEnv m buf ++ [("tag", .u8 tag), ("val", .u64 val)], m.tape⟩ =
+        .ret ⟨stEnv { m with tape := (m.tape.push (mkWord tag 0)).push val } buf ++ [("tag", .u8 tag), ("val", .u64 val)],
+          (m.tape.push (mkWord tag 0)).push val⟩ []) ∧
+    -- writeTapeTagValFlags
+    (∀ (id val : UInt64),
+      runFun goFuns goParsedJson_writeTapeTagValFlags fuel ⟨stEnv m buf ++ [("id", .u64 id), ("val", .u64 val)], m.tape⟩ =
+        .ret ⟨stEnv { m with tape := (m.tape.push id).push val } buf ++ [("id", .u64 id), ("val", .u64 val)],
+          (m.tape.push id).push val⟩ []) ∧
+    -- write_tape_s64
+    (∀ (val : Int),
+      runFun goFuns goParsedJson_write_tape_s64 (fuel + 1) ⟨stEnv m buf ++ [("val", .int val)], m.tape⟩ =
+        .ret ⟨stEnv { m with tape := (m.tape.push (mkWord tagInteger 0)).push (ofInt64 val) } buf ++ [("val", .int val)],
+          (m.tape.push (mkWord tagInteger 0)).push (ofInt64 val)⟩ []) ∧
+    -- write_tape_double
+    (∀ (d : UInt64),
+      runFun goFuns goParsedJson_write_tape_double (fuel + 1) ⟨stEnv m buf ++ [("d", .u64 d)], m.tape⟩ =
+        .ret ⟨stEnv { m with tape := (m.tape.push (mkWord tagFloat 0)).push d } buf ++ [("d", .u64 d)],
+          (m.tape.push (mkWord tagFloat 0)).push d⟩ []) ∧
+    -- annotate_previousloc
+    (∀ (at_ val : UInt64),
+      match m.annotate at_ val with
+      | some m' => runFun goFuns goParsedJson_annotate_previousloc fuel
+          ⟨stEnv m buf ++ [("saved_loc", .u64 at_), ("val", .u64 val)], m.tape⟩ =
+            .ret ⟨stEnv m' buf ++ [("saved_loc", .u64 at_), ("val", .u64 val)], m'.tape⟩ []
+      | none => runFun goFuns goParsedJson_annotate_previousloc fuel
+          ⟨stEnv m buf ++ [("saved_loc", .u64 at_), ("val", .u64 val)], m.tape⟩ = .panic) ∧
+    -- parseString
+    (∀ (idx max : UInt64) (cap : Int), idx.toNat ≤ buf.size → idx.toNat < 2^63 →
+      match m.parseString cfg buf idx.toNat max.toNat with
+      | some m' => ∃ e', runFun goFuns goparseString (fuel + 1) ⟨psEnv m buf idx max cfg.copyStrings cap, m.tape⟩ =
+          .ret ⟨e', m'.tape⟩ [.bool true] ∧ PSPost e' m' buf
+      | none => ∃ e', runFun goFuns goparseString (fuel + 1) ⟨psEnv m buf idx max cfg.copyStrings cap, m.tape⟩ =
+          .ret ⟨e', m.tape⟩ [.bool false] ∧ PSPost e' m buf) ∧
+    -- addNumber
+    (∀ (idx : Nat),
+      match parseNumber buf idx with
+      | some (tg, v) => ∃ e', runFun goFuns goaddNumber (fuel + 1)
+          ⟨stEnv m buf ++ [("buf", .bytes (buf.extract idx buf.size))], m.tape⟩ =
+            .ret ⟨e', (m.tape.push tg).push v⟩ [.bool true] ∧ PSPost e' { m with tape := (m.tape.push tg).push v } buf
+      | none => ∃ e', runFun goFuns goaddNumber (fuel + 1)
+          ⟨stEnv m buf ++ [("buf", .bytes (buf.extract idx buf.size))], m.tape⟩ = .ret ⟨e', m.tape⟩ [.bool false] ∧
+            PSPost e' m buf) :=
+  ⟨get_current_loc_sim m buf fuel, or_shl_eq_mkWord, fun val c => write_tape_sim m buf val c fuel,
+   fun tag val => writeTapeTagVal_sim m buf tag val fuel, fun id val => writeTapeTagValFlags_sim m buf id val fuel,
+   fun val => write_tape_s64_sim m buf val fuel, fun d => write_tape_double_sim m buf d fuel,
+   fun at_ val => annotate_previousloc_sim m buf at_ val fuel,
+   fun idx max cap h1 h2 => parseString_sim m cfg buf idx max cap fuel h1 h2,
+   fun idx => addNumber_sim m buf idx fuel⟩
 
 end SJ.GoStage2
